@@ -51,7 +51,7 @@ def schema_types(ctx, k):
     return sorted(json.load(open(outp)))
 
 
-def shard_by_size(lines, max_bytes=1200000, max_lines=3000):
+def shard_by_size(lines, max_bytes=2500000, max_lines=6000):
     shards, cur, size = [], [], 0
     for ln in lines:
         if cur and (size + len(ln) > max_bytes or len(cur) >= max_lines):
@@ -64,9 +64,10 @@ def shard_by_size(lines, max_bytes=1200000, max_lines=3000):
     return shards
 
 
-def trace_constants(k, check_alloc=False, alloc_k=0, alloc_c=0):
+def trace_constants(k, check_alloc=False, alloc_k=0, alloc_c=0, check_verdict=True):
     c = dict(k)
-    c.update({"CheckAlloc": "TRUE" if check_alloc else "FALSE", "AllocK": str(alloc_k), "AllocC": str(alloc_c)})
+    c.update({"CheckAlloc": "TRUE" if check_alloc else "FALSE", "AllocK": str(alloc_k), "AllocC": str(alloc_c),
+              "CheckVerdict": "TRUE" if check_verdict else "FALSE"})
     return c
 
 
@@ -113,9 +114,8 @@ def run_dec(ctx, binp, casep, tracep, timeout=900):
     return out_lines
 
 
-MC_QUICK = ["Header", "WorkItem", "WorkReport", "Storage", "FuzzMessage", "AvailAssurance", "WorkExecResult", "RefineLoad", "ServiceInfo",
-            "StateKeyVals", "TicketsOrKeys", "Mmr", "Privileges", "Judgement", "LookupMetaMapEntry", "OperandOrDeferredTransfer", "BoundaryNode",
-            "AccumulatedServiceOutput", "MetaCode", "FuzzPeerInfo", "Ancestry", "TicketAttempt"]
+MC_QUICK = ["Header", "WorkItem", "Storage", "FuzzMessage", "AvailAssurance", "WorkExecResult", "RefineLoad", "TicketsOrKeys", "Mmr",
+            "Judgement", "LookupMetaMapEntry", "OperandOrDeferredTransfer", "AccumulatedServiceOutput", "MetaCode", "FuzzPeerInfo", "Ancestry"]
 # types whose encodings are too large to enumerate mutants / pairs exhaustively in the model check (they are compositions of the others)
 MC_HUGE = ["State", "ReadyQueue", "AuthQueues", "AuthQueue", "SafroleState", "ValidatorsData", "ExportSegment", "ExportSegmentMatrix",
            "WorkPackageBundle", "FuzzSetState", "Statistics", "AvailabilityAssignments"]
@@ -125,7 +125,7 @@ def mc_codec(ctx, k):
     """Design check: round trip + layout agreement for every schema type, prefix-freeness and strictness on mutants."""
     names = schema_types(ctx, k)
     if ctx.quick:
-        mut, pair, kk = MC_QUICK, MC_QUICK, 3
+        mut, pair, kk = MC_QUICK, MC_QUICK, 2
     else:
         mut = [n for n in names if n not in MC_HUGE]
         pair, kk = mut, 4
@@ -138,10 +138,10 @@ def mc_codec(ctx, k):
 def gen_cases(ctx, binp, k, names, classes, tag, kk=None, big_limit=None, groups=None, sample_n=None, med_limit=None):
     """G-step: TLC derives the mutants (CodecMut) of the generator values and of seeded driver values of `names`."""
     import concurrent.futures as cf
-    kk = kk or (3 if ctx.quick else 6)
-    big_limit = big_limit or (700 if ctx.quick else 2500)
-    med_limit = med_limit or (200 if ctx.quick else 800)
-    sample_n = sample_n if sample_n is not None else (3 if ctx.quick else 10)
+    kk = kk or (2 if ctx.quick else 5)
+    big_limit = big_limit or (400 if ctx.quick else 2500)
+    med_limit = med_limit or (120 if ctx.quick else 700)
+    sample_n = sample_n if sample_n is not None else (1 if ctx.quick else 6)
     groups = groups or (4 if ctx.quick else 10)
     valp = ""
     if sample_n > 0:
